@@ -55,7 +55,30 @@ def check_assignment(res, case, m, names, card, labels, q):
     return None
 
 
+def gen_tiny_evidence(rng):
+    """a cause with k observed rare findings: P(evidence) is far below anything a float table usually holds (1e-312 .. 1e-200)"""
+    k = rng.choice([5, 6, 8, 8])
+    e = {5: 40, 6: 45, 8: 39}[k]
+    ca = rng.choice([2, 3])
+    prior = [Fraction(rng.randint(1, 9)) for _ in range(ca)]
+    prior = [x / sum(prior) for x in prior]
+    cpds = [{"child": 0, "parents": [], "table": [[rs(x)] for x in prior]}]
+    for i in range(1, k + 1):
+        hi = [Fraction(rng.randint(1, 3), 10 ** e) for _ in range(ca)]
+        rows = [[rs(1 - x) for x in hi], [rs(x) for x in hi]]
+        if i % 2:
+            rows.reverse()
+        cpds.append({"child": i, "parents": [0], "table": rows})
+    return {"nodes": [f"v{i}" for i in range(k + 1)], "edges": [[0, i] for i in range(1, k + 1)], "card": [ca] + [2] * k,
+            "labels": [list(range(ca))] + [[0, 1]] * k, "cpds": cpds, "shape": "tiny_evidence", "q": [0],
+            "ev": [[i, 0 if i % 2 else 1] for i in range(1, k + 1)], "joint": False, "latents": [], "virt": [], "keep_insertion_order": True}
+
+
 def gen_map(rng, tier):
+    if rng.random() < .02:
+        case = gen_tiny_evidence(rng)
+        case["order"], case["warm"] = rng.choice(["MinFill", None]), False
+        return case
     r_ = rng.random()
     case = c01.gen_dup(rng, tier) if r_ < .3 else (c01.gen_virtual(rng, tier) if r_ < .5 else c01.gen_query(rng, tier))
     if case is None:
